@@ -105,6 +105,22 @@ def make_case(rng, tier, damage, max_damage=4):
         n = len(blob)
         cuts = [c for c in (((n - 1) // pl) * pl, n // 2, n - 1, pl) if 0 < c < n] or [n - 1]
         case["damage"] = [["trunc", rel, rng.choice(cuts)]]
+    elif damage and version == 1 and not single and rng.random() < 0.15:
+        order = ordered(files, 1, case.get("v1_order"))
+        off, last = 0, None
+        for rel, b in order:
+            if len(b):
+                last = (rel, off, len(b))
+            off += len(b)
+        if last and last[2] > 1:
+            rel, start, n = last
+            end = ((start + n - 1) // pl) * pl          # last piece boundary inside the file
+            cut = end - start if end > start else n // 2
+            data = dict(files)[rel].bytes()
+            if 0 < cut < n and any(data[cut:]):
+                case["damage"] = [["trunc", rel, cut]]
+        if not case["damage"]:
+            case["damage"] = make_damage(rng, files, pl, version, single, 1, case.get("v1_order"))
     elif damage and twin_rel is not None and rng.random() < 0.7:
         n = len(dict(files)[twin_rel])
         case["damage"] = [["flip", twin_rel, rng.choice([0, n - 1, n // 2])]]
@@ -112,6 +128,12 @@ def make_case(rng, tier, damage, max_damage=4):
         case["damage"] = make_damage(rng, files, pl, version, single,
                                      rng.randrange(1, max_damage + 1), case.get("v1_order"),
                                      zero_ok=case.get("zero_ok", False))
+    if case["damage"] and not case.get("zero_ok"):
+        orig = {rel: b.bytes() for rel, b in files}
+        state = apply_damage(files, case["damage"])
+        if not absent_regions_nonzero(files, orig, state, pl, version, single, case.get("v1_order")):
+            # the targeted damage would leave an absent all-zero region: the property excludes it
+            case["damage"] = make_damage(rng, files, pl, version, single, 1, case.get("v1_order"))
     return case
 
 
